@@ -19,7 +19,7 @@ def run(tier):
     rep.add_tlc(r, 'SaveResume_mc')
     rep.model_violation(r, 'SaveResume_mc')
     cbuild.build()
-    per = 40 if tier == 'quick' else 400
+    per = 26 if tier == 'quick' else 400
     with mp.get_context('fork').Pool(16) as pool:
         parts = pool.map(rundrv.legs, [(sd * 71 + k, per, wd) for k in range(16)])
     recs = [x for p in parts for x in p]
